@@ -18,6 +18,50 @@ RULE = ("two real HalfConnections, send histories over up to 64 channels x 4 mod
         "behind an unacknowledged Reliable packet (parent leads crossing the 127/128 and 255/256 header thresholds); oracle: per channel the delivered payloads are a duplicate-free "
         "subsequence of the submitted ones. Non-trivial: >= 5 packets delivered under at least one fault.")
 
+def long_lead_scenario(r, it):
+    """A Reliable packet on channel c is lost again and again while small packets follow it, so that the parent leads in
+    the datagram headers pass the encoding thresholds (window parent lead 127/128, channel parent lead 255/256): exactly
+    T-1 packets on other channels, then one on channel c (channel lead = T). For the channel-lead thresholds other
+    channels carry Reliable packets too, so that the window parent lead stays small."""
+    cfg = pick_cfg(r); cfg["pw"] = 4096; cfg["fw"] = 4096; cfg["bwA"] = cfg["bwB"] = 20_000_000
+    sim = Sim(r, cfg, inter=it)
+    ok = Net(latency=r.pick([0, 2_000_000]), reorder=r.pick([0, 200]), jitter=r.pick([0, 1_000_000]))
+    c = r.below(4)
+    rel = sim.send("A", c, 3, 10)
+    T = r.pick([127, 128, 128, 129, 255, 256, 256, 257, r.range(100, 300)])
+    state = {"hold": True}
+    def fate(sim, ep, idx, f, rel=rel, state=state):
+        if ep == "A" and f["kind"] == "D" and state["hold"] and any(d["dfnv"] == rel.frag_fnv[0] and d["dlen"] == 10 for d in f["dgs"]):
+            return []
+        return None
+    sim.fate_fn = fate
+    sim.run(1, 5_000_000, Net(loss=1000), ok)                        # the Reliable packet's frame is lost
+    others = [x for x in range(4) if x != c]
+    sent = [0]
+    def tr(sim, ep):
+        if ep != "A":
+            return
+        for _ in range(r.range(1, 6)):
+            if sent[0] < T - 1:
+                rel_other = T > 200 and sent[0] % 40 == 39
+                sim.send("A", r.pick(others), 3 if rel_other else r.pick([1, 1, 2]), r.range(3, 60))   # no TimeSensitive here: every packet must consume an id
+                sent[0] += 1
+            elif sent[0] == T - 1:
+                sim.send("A", c, r.pick([1, 1, 2]), r.range(3, 60)); sent[0] += 1          # channel lead = T
+            elif sent[0] < T + 40:
+                sim.send("A", r.below(4), r.pick([1, 1, 2, 0]), r.range(3, 60)); sent[0] += 1
+    link = Net(loss=r.pick([0, 100]), reorder=r.pick([0, 300]), jitter=r.pick([0, 3_000_000]))
+    for _ in range(200):
+        sim.run(1, 5_000_000, link, ok, tr)
+        if sim.dead or sent[0] >= T + 10:
+            break
+    sim.run(3, 5_000_000, link, ok, tr)
+    state["hold"] = False
+    sim.run(20, 5_000_000, link, ok, tr)
+    sim.fate_fn = None
+    sim.meta = {"cfg": cfg, "T": T}
+    return sim
+
 def streams(rng, tier, ctx):
     n = 24 if tier == "quick" else 500
     it = Interactive("hc")
@@ -77,28 +121,7 @@ def streams(rng, tier, ctx):
                 sim.fate_fn = None
                 sim.meta = {"cfg": cfg}
             elif i % 4 == 3:
-                # long lead: a Reliable packet is lost repeatedly while 100..300 small packets follow it
-                cfg = pick_cfg(r); cfg["pw"] = 4096; cfg["fw"] = 4096; cfg["bwA"] = cfg["bwB"] = 20_000_000
-                sim = Sim(r, cfg, inter=it)
-                first = [True]
-                class DropFirst(Net):
-                    pass
-                lost = Net(loss=1000); ok = Net(latency=r.pick([0, 2_000_000]), reorder=r.pick([0, 200]), jitter=r.pick([0, 1_000_000]))
-                rel = sim.send("A", r.below(4), 3, 10)
-                hold = r.range(20, 70)                                 # ticks during which every copy of the Reliable packet is lost
-                def fate(sim, ep, idx, f, rel=rel, hold=hold):
-                    if ep == "A" and f["kind"] == "D" and sim.tick <= hold + 1 and any(d["dfnv"] == rel.frag_fnv[0] and d["dlen"] == 10 for d in f["dgs"]):
-                        return []
-                    return None
-                sim.fate_fn = fate
-                sim.run(1, 5_000_000, lost, ok)                        # the Reliable packet's frame is lost
-                total = r.range(140, 320)
-                def tr(sim, ep):
-                    if ep == "A" and len(sim.sent["A"]) < total:
-                        for _ in range(r.range(1, 6)):
-                            sim.send("A", r.below(4), r.pick([1, 1, 2, 0]), r.range(3, 60))
-                sim.run(80, 5_000_000, Net(loss=r.pick([0, 100]), reorder=300, jitter=3_000_000), ok, tr)
-                sim.meta = {"cfg": cfg}
+                sim = long_lead_scenario(r, it)
             else:
                 sim = H.lossy_scenario(r, it, tier, small_volume=False, chans=r.pick([4, 4, 64]))
             H.finish(sim, drain=True, max_ticks=300)
